@@ -103,7 +103,8 @@ def _deriv_fpe(route, exc):
     """the symbolic derivative is a different formula than the written one: its intermediates may overflow
     (e.g. cosh(a)**(-2) for 1 - tanh(a)**2 at a = 1000) where the written formula is well-conditioned; the
     harness runs numpy with seterr(all='raise'), so this surfaces as FloatingPointError -> point skipped"""
-    return route.startswith(("diff", "derivatives", "tensor-diff", "tensor-derivatives")) and isinstance(exc, FloatingPointError)
+    return route.startswith(("diff", "derivatives", "tensor-diff", "tensor-derivatives")) and isinstance(
+        exc, (FloatingPointError, OverflowError))
 
 
 class Rec:
@@ -115,6 +116,7 @@ class Rec:
         self.outs = collections.Counter()
         self.n = self.compared = self.skipped = 0
         self.sigs = set()
+        self.t_last, self.slow = None, (0.0, "")
 
     def bad(self, route, shape, clause, text, msg, replay, fn):
         sig = f"{route}|{shape}|{clause}"
@@ -131,7 +133,7 @@ class Rec:
             "nt": bool(self.keys),
             "outs": sorted(self.outs),
             "ref": sorted(self.refs.elements()),
-            "info": {"compared": self.compared, "skipped": self.skipped, "refs": dict(self.refs)},
+            "info": {"compared": self.compared, "skipped": self.skipped, "refs": dict(self.refs), "slow": list(self.slow)},
         }
 
 
@@ -188,7 +190,12 @@ def expr_chunk(case):
     pts = case.get("pts") or make_points(case.get("seed", 0))
     routes = case.get("routes") or ROUTES_I
 
+    import time
+
     for text in case["exprs"]:
+        if rec.t_last is not None:
+            rec.slow = max(rec.slow, (time.process_time() - rec.t_last[0], rec.t_last[1]))
+        rec.t_last = (time.process_time(), text)
         orc = O.Oracle(text)
         R = [orc.at(p) for p in pts]
         kept = [(p, r) for p, r in zip(pts, R) if r is not None]
@@ -214,6 +221,8 @@ def expr_chunk(case):
                 rec.n += 1
                 return True, fn()
             except Exception as exc:  # noqa: BLE001
+                if type(exc).__name__ == "CaseTimeout":
+                    raise
                 why = refusal(route, _text, exc, jit)
                 if why:
                     rec.refs[why] += 1
@@ -221,7 +230,7 @@ def expr_chunk(case):
                 elif _deriv_fpe(route, exc):
                     rec.skipped += 1
                     rec.outs["symbolic derivative over/underflows at a point (skipped)"] += 1
-                elif isinstance(exc, FloatingPointError) and "overflow" in str(exc):
+                elif (isinstance(exc, FloatingPointError) and "overflow" in str(exc)) or isinstance(exc, OverflowError):
                     # e.g. 1/(1+exp(-a)) is simplified to exp(a)/(exp(a)+1): inf/inf at a = 1000
                     rec.bad(route, shape, CLAUSE_O, _text, f"{exc} at {[_pt(p) for p in plist][-1:]}; the written formula is "
                             "finite there (all sub-expressions <= 1e8)", replay(route, plist), "expr_chunk")
@@ -315,6 +324,12 @@ def expr_chunk(case):
                 if ok and scalar_route(backend + "-single", fn, single=True) and not has_v:
                     array_route(backend + "-single", fn, single=True)
         dkept = [(p, r) for p, r in kept if not r["nodiff"] and all(_finite(x) for x in _flat(r["d"]))]
+        if case.get("deep") and _has(text, "abs"):
+            # differentiating through abs is always refused (PrintMethodNotImplementedError: sympy symbols are complex,
+            # d|z|/dz is left as Derivative(re(..))), which is established on the depth <= 1 expressions; for nested
+            # arguments sympy needs up to 80 CPU-seconds per expression to arrive at the same refusal
+            dkept = []
+            rec.refs["derivative through abs(...) of a nested expression: not attempted (refused at depth <= 1)"] += 1
         if "diff" in routes and dkept:
             for var in ["a", "b"] + (["arr[0]"] if has_arr else []):
                 i = O.VAR_INDEX[var]
@@ -345,6 +360,8 @@ def expr_chunk(case):
                         break
         rec.keys.append(text)
         rec.outs["compared"] += 1
+    if rec.t_last is not None:
+        rec.slow = max(rec.slow, (time.process_time() - rec.t_last[0], rec.t_last[1]))
     return rec.result()
 
 
@@ -418,6 +435,8 @@ def variant_chunk(case):
                 rec.n += 1
                 return True, fn()
             except Exception as exc:  # noqa: BLE001
+                if type(exc).__name__ == "CaseTimeout":
+                    raise
                 why = refusal(route, _text, exc, jit)
                 if why:
                     rec.refs[why] += 1
@@ -616,6 +635,8 @@ def tensor_chunk(case):
                 rec.n += 1
                 return True, fn()
             except Exception as exc:  # noqa: BLE001
+                if type(exc).__name__ == "CaseTimeout":
+                    raise
                 why = refusal(route, _text, exc, jit)
                 if why is None and route.startswith("call-array") and rank == 2 and type(exc).__name__ == "ValueError" \
                         and "broadcast" in str(exc) and const_row[0]:
@@ -959,6 +980,7 @@ def main(run):
     groups = _by_shape(trees)
     info = collections.Counter()
     refs = collections.Counter()
+    slow = []
 
     def explore(fn, cases, mode, part, **kw):
         if getattr(run, "only", None) and part not in run.only:
@@ -967,6 +989,8 @@ def main(run):
             for k, v in (res.get("info") or {}).items():
                 if k == "refs":
                     refs.update(v)
+                elif k == "slow":
+                    slow.append((round(v[0], 2), v[1]))
                 else:
                     info[f"{part}: {k}"] += v
 
@@ -980,14 +1004,15 @@ def main(run):
 
     # 1. all expressions x all routes, interpreted kernels (mode I); one case = <= 24 expressions of one shape
     base = {O.text(t) for t in O.enumerate_trees("quick")}
+    flat = {O.shape(t) for t in trees if O.depth(t) <= 1}
     cases, deep = [], []
     for shp, texts in groups.items():
         for ch in _chunks([t for t in texts if t in base], 24):
-            cases.append({"shape": shp, "exprs": ch, "seed": seed})
+            cases.append({"shape": shp, "exprs": ch, "seed": seed, "deep": shp not in flat})
         # the expressions only the thorough tier has: the argument-passing variants (single_arg, broadcasting,
         # the scalar numpy function = `call`) do not depend on the depth of the expression and are left out
         for ch in _chunks([t for t in texts if t not in base], 24):
-            deep.append({"shape": shp, "exprs": ch, "seed": seed, "routes": ROUTES_DEEP})
+            deep.append({"shape": shp, "exprs": ch, "seed": seed, "routes": ROUTES_DEEP, "deep": True})
     cases.sort(key=lambda c: -len(c["exprs"]))
     deep.sort(key=lambda c: -len(c["exprs"]))
     explore("expr_chunk", cases, "I", "expr[I]", chunksize=1, limit=1200)
@@ -1079,6 +1104,7 @@ def main(run):
     ncases = [{"shape": shp, "exprs": texts} for shp, texts in _by_shape(catoms + O.level1(catoms)).items()]
     explore("number_chunk", ncases, "I", "parse_number[I]")
 
+    run.notes["slowest_expressions_cpu_s"] = sorted(slow, reverse=True)[:8]
     run.notes["points"] = pts
     run.notes["expressions"] = len(trees)
     run.notes["comparisons_and_skips"] = dict(info)
